@@ -14,7 +14,7 @@ Plain Python only (no numpy).  A container is
 Index descriptors are tagged tuples that were already reduced to the current
 axis length by the interpreter:
 
-    ("int", i) ("slice", a, b, c) ("mask", [bool, ...]) ("arr", [int, ...]) ("ell",)
+    ("int", i) ("int0d", i, dtype) ("slice", a, b, c) ("mask", [bool, ...]) ("arr", [int, ...]) ("ell",)
 
 Every operation either returns the new value / mutates ``self`` completely, or
 raises ``Invalid(kind)`` *before* touching anything.
@@ -35,12 +35,28 @@ ZERO = {"U": "", "i": 0, "f": 0.0, "b": False}
 
 
 class Invalid(Exception):
-    """The model rejects the operation.  kind: index | notimpl | any"""
+    """The model rejects the operation.  kind: index | notimpl | any
 
-    def __init__(self, kind, why=""):
+    ``alt``: for an input class whose treatment is documented nowhere (today:
+    a duplicated atom index on a container with bonds) a callable that returns
+    what the operation yields *if the implementation supports it*; the
+    interpreter then accepts an exception or that result."""
+
+    def __init__(self, kind, why="", alt=None, alt_exc=None, label=None):
         super().__init__(f"{kind}: {why}")
         self.kind = kind
         self.why = why
+        self.alt = alt
+        self.alt_exc = alt_exc  # exception types accepted instead of alt() (None: any Exception)
+        self.label = label
+
+
+def _as_any(fn, *args):
+    """norm_int & co. with the unspecific rejection kind (exception type undocumented)."""
+    try:
+        return fn(*args)
+    except Invalid as e:
+        raise Invalid("any", e.why) from None
 
 
 def same_value(a, b):
@@ -68,7 +84,7 @@ def norm_int(i, length):
 def select(d, length):
     """("int", pos) or ("list", [pos, ...]) - python list semantics."""
     tag = d[0]
-    if tag == "int":
+    if tag in ("int", "int0d"):  # int0d: zero-dimensional integer array = integer index (NumPy)
         return "int", norm_int(d[1], length)
     if tag == "slice":
         return "list", list(range(length))[slice(d[1], d[2], d[3])]
@@ -84,15 +100,18 @@ def select(d, length):
 
 
 class MC:
-    __slots__ = ("kind", "cats", "ann", "coord", "box", "bonds")
+    __slots__ = ("kind", "cats", "ann", "coord", "box", "bonds", "loose_bonds")
 
-    def __init__(self, kind, cats, ann, coord, box=None, bonds=None):
+    def __init__(self, kind, cats, ann, coord, box=None, bonds=None, loose_bonds=False):
         self.kind = kind
         self.cats = dict(cats)
         self.ann = ann
         self.coord = coord
         self.box = box
         self.bonds = bonds
+        # True: a BondList must exist and be coherent with n, its content is not specified
+        # (result of a duplicated atom index); the checker adopts the observed bonds
+        self.loose_bonds = loose_bonds
 
     # ------------------------------------------------------------------ basics
     @property
@@ -112,6 +131,7 @@ class MC:
             [c for c in self.coord] if self.kind == "array" else [list(mod) for mod in self.coord],
             _copy_box(self.kind, self.box),
             None if self.bonds is None else dict(self.bonds),
+            loose_bonds=self.loose_bonds,
         )
 
     def has_nan(self):
@@ -146,23 +166,30 @@ class MC:
         assert self.kind == "array"
         return {"ann": dict(self.ann[pos]), "coord": self.coord[pos]}
 
-    def take_atoms(self, positions):
-        if self.bonds is not None and len(set(positions)) != len(positions):
-            raise Invalid("notimpl", "duplicate atom index on a container with bonds")
+    def take_atoms(self, positions, dup_ok=False):
+        dup = self.bonds is not None and len(set(positions)) != len(positions)
+        if dup and not dup_ok:
+            raise Invalid(
+                "notimpl",
+                "duplicate atom index on a container with bonds",
+                alt=lambda: ("cont", self.take_atoms(positions, dup_ok=True)),
+            )
         ann = [dict(self.ann[p]) for p in positions]
         if self.kind == "array":
             coord = [self.coord[p] for p in positions]
         else:
             coord = [[mod[p] for p in positions] for mod in self.coord]
         bonds = None
-        if self.bonds is not None:
+        if dup:
+            bonds = {}
+        elif self.bonds is not None:
             new_pos = {p: k for k, p in enumerate(positions)}
             bonds = {}
             for (i, j), t in self.bonds.items():
                 if i in new_pos and j in new_pos:
                     a, b = new_pos[i], new_pos[j]
                     bonds[(min(a, b), max(a, b))] = t
-        return MC(self.kind, self.cats, ann, coord, _copy_box(self.kind, self.box), bonds)
+        return MC(self.kind, self.cats, ann, coord, _copy_box(self.kind, self.box), bonds, loose_bonds=dup)
 
     def take_models(self, positions):
         assert self.kind == "stack"
@@ -173,6 +200,7 @@ class MC:
             [list(self.coord[p]) for p in positions],
             None if self.box is None else [self.box[p] for p in positions],
             None if self.bonds is None else dict(self.bonds),
+            loose_bonds=self.loose_bonds,
         )
 
     def get_model(self, pos):
@@ -184,6 +212,7 @@ class MC:
             list(self.coord[pos]),
             None if self.box is None else self.box[pos],
             None if self.bonds is None else dict(self.bonds),
+            loose_bonds=self.loose_bonds,
         )
 
     def index(self, d0, d1=None):
@@ -218,25 +247,31 @@ class MC:
         except Invalid as e:
             problems.append(e.kind)
         if problems:
-            raise Invalid(tuple(problems), "two-dimensional index")
+            alt = None
+            if problems == ["notimpl"]:
+                alt = lambda: self._index2(what0, sel0, what1, sel1, True)  # noqa: E731
+            raise Invalid(tuple(problems), "two-dimensional index", alt=alt)
+        return self._index2(what0, sel0, what1, sel1, False)
+
+    def _index2(self, what0, sel0, what1, sel1, dup_ok):
         if what0 == "int":
             arr = self.get_model(sel0)
             if what1 == "int":
                 return "atom", arr.atom_at(sel1)
-            return "cont", arr.take_atoms(sel1)
-        sub = self.take_atoms([sel1] if what1 == "int" else sel1)
+            return "cont", arr.take_atoms(sel1, dup_ok)
+        sub = self.take_atoms([sel1] if what1 == "int" else sel1, dup_ok)
         return "cont", sub.take_models(sel0)
 
     # ------------------------------------------------------------ mutation
     def delete(self, i):
         """del array[i] (atom) / del stack[i] (model)."""
         if self.kind == "array":
-            pos = norm_int(i, self.n)
+            pos = _as_any(norm_int, i, self.n)
             keep = [p for p in range(self.n) if p != pos]
             new = self.take_atoms(keep)
             self.ann, self.coord, self.bonds = new.ann, new.coord, new.bonds
         else:
-            pos = norm_int(i, self.m)
+            pos = _as_any(norm_int, i, self.m)
             del self.coord[pos]
             if self.box is not None:
                 del self.box[pos]
@@ -244,7 +279,7 @@ class MC:
     def set_atoms(self, d, atom):
         """array[int or index array] = atom"""
         assert self.kind == "array"
-        what, sel = select(d, self.n)
+        what, sel = _as_any(select, d, self.n)
         positions = [sel] if what == "int" else sel
         if sorted(atom["ann"]) != sorted(self.cats):
             raise Invalid("any", "atom has other annotation categories")
@@ -259,7 +294,7 @@ class MC:
             raise Invalid("any", "unequal annotations")
         if self.bonds != arr.bonds:
             raise Invalid("any", "unequal bonds")
-        pos = norm_int(i, self.m)
+        pos = _as_any(norm_int, i, self.m)
         self.coord[pos] = list(arr.coord)
         if self.box is not None:
             assert arr.box is not None, "outside the modelled domain"
